@@ -62,6 +62,10 @@ def body(h):
     h.require('error-trap-cleared', not it.on_error)
     # probes through BASIC: old names read as zero, DEFINT gone (A is single again), FNA undefined,
     # OPTION BASE 0 allowed, RETURN without GOSUB, first RND of a fresh session
+    # no error trap is left, so a division by zero is a soft error again: message, machine infinity, carry on
+    impl.execute(b'X!=1/0: P%=1')
+    # (ERR may still hold an earlier error of the command itself, e.g. RUN 900 runs into RESUME without error)
+    h.require('soft-float-errors-restored', it.error_num != DIV0 and b'P%' in impl.scalars._vars, it.error_num)
     impl.execute(b'ON ERROR GOTO 0')
     impl.execute(b'T%=A%: V%=Q%(2)')
     h.require('old-values-gone', s_and(_geti(impl, b'T%') == 0, _geti(impl, b'V%') == 0))
